@@ -197,7 +197,10 @@ def coq_query(g):
     else:
         d, log = g.scratch_dir(), ""
         open(os.path.join(d, "bw_query.v"), "w").write(privatise(QUERY))
-        if not os.path.exists(os.path.join(d, "Tables", "BwCheck.vo")):
+        vo, tv = os.path.join(d, "Tables", "BwCheck.vo"), os.path.join(d, "Gen", "BwTables.v")
+        if not os.path.exists(vo) or os.path.getmtime(vo) < os.path.getmtime(tv):
+            os.makedirs(os.path.join(d, "Tables"), exist_ok=True)
+            open(os.path.join(d, "Tables", "BwCheck.v"), "w").write(privatise(open(os.path.join(pv.COQ, "Tables/BwCheck.v")).read()))
             coqc_private(d, "Gen/BwTables.v")
             coqc_private(d, "Tables/BwCheck.v")
         rc, out = coqc_private(d, "bw_query.v")
@@ -287,6 +290,10 @@ def _run_part(ctx, cov, t0):
     cov["table_sizes"] = {k: len(v) for k, v in tabs.items()}
     # 2. the theorems against the regenerated table
     res = pv.check_props(PID, timeout=600) if pv.REPO == "/repo" else check_props_private(g)
+    if not res["ok"] and "Error" not in res["log"]:
+        # no Coq error in the log: the build was starved (lock wait / timeout of the shared tree), not refuted
+        cov["retried_after_starved_build"] = res["log"][-300:]
+        res = pv.check_props(PID, timeout=900) if pv.REPO == "/repo" else check_props_private(g)
     t1 = time.time()
     cov.update({"obligations": res["obligations"] + 7, "discharged": res["discharged"] + (7 if res["ok"] else 0),
                 "theorems": res["theorems"], "non_vacuity_examples": res["examples"], "axioms_per_theorem": res["axioms"],
